@@ -266,6 +266,22 @@ def open_bound_within_2eps(pb, steps):
     return False
 
 
+def short_open_condition(pb, steps):
+    """Some durative step has an open condition interval that is not longer than the epsilon shifts of its open bounds."""
+    eps = pb.epsilon
+    if eps is None:
+        return False
+    for s, a, args, d in steps:
+        if d is None:
+            continue
+        for iv in a.conditions:
+            lo, hi = ttsem._abs(iv.lower, s, d), ttsem._abs(iv.upper, s, d)
+            shift = (eps if iv.is_left_open() else 0) + (eps if iv.is_right_open() else 0)
+            if shift and hi - lo <= shift:
+                return True
+    return False
+
+
 def pinned_goals(pb, v0):
     """Goals fixing the final value of every ground fluent whose final value differs from its initial one."""
     em = pb.environment.expression_manager
@@ -415,7 +431,15 @@ def observe(pb, steps, v0, wbase, res, pid):
         res.count("back_dontcare:" + v1.dontcares[0])
         return
     if v1.status == ttsem.INVALID:
-        viol("roundtrip-invalid:" + "+".join(sorted({c.split(":")[0] for c in v1.codes()})), f"valid plan {plan_json} -> STN -> {back_json}, which the reference judges invalid: {v1.failures}", back=back_json, reference_back=v1.to_json())
+        codes = sorted({c.split(":")[0] for c in v1.codes()})
+        mech = "roundtrip-invalid:" + "+".join(codes)
+        if codes == ["condition"] and short_open_condition(pb, steps):
+            # an open condition interval shorter than its epsilon shifts is sampled at no event at all: the condition (and the
+            # orderings it induces) is missing from the STN - same epsilon representation of open bounds, under-constraining here
+            mech = "epsilon-shift-of-open-bounds-loses-a-short-open-condition"
+        elif codes == ["duration-bound-undefined"]:
+            mech = "roundtrip-invalid:duration"  # same root cause: nothing protects the fluents a duration bound reads
+        viol(mech, f"valid plan {plan_json} -> STN -> {back_json}, which the reference judges invalid: {v1.failures}", back=back_json, reference_back=v1.to_json())
         return
     res.count("roundtrip_valid")
     if back_json != plan_json:
